@@ -19,6 +19,8 @@ def decide(cmd, tl):
     except subprocess.TimeoutExpired:
         return 'timeout'
     out = (r.stdout + r.stderr).strip().splitlines()
+    if any('interrupted by timeout' in l or l.strip() == 'timeout' for l in out):
+        return 'timeout'
     if any(l.startswith('(error') for l in out):
         return 'error'
     for l in out:
